@@ -334,7 +334,7 @@ class Unit:
 class ProjGen:
     """A random multi-file project with a call graph that crosses the module boundaries."""
 
-    LAYOUTS = ["flat", "flat", "pkg", "pkg", "tpkg", "mixed", "nested"]
+    LAYOUTS = ["flat", "flat", "pkg", "pkg", "tpkg", "mixed", "nested", "nested"]
     TWIN_NAMES = ["util", "helper", "Shared"]
 
     def __init__(self, rng: random.Random):
@@ -392,6 +392,8 @@ class ProjGen:
             self.add_mod("pk.xa")
             self.add_mod("pk.sub", init=True)
             self.add_mod("pk.sub.deep")
+            if r.random() < 0.7:
+                self.add_mod("pk.deep")     # a module of the SAME name one package level up (same-named units: TWIN_NAMES)
             if self.target != "target":
                 self.add_mod("pk.sub.tdeep")
 
@@ -445,7 +447,7 @@ class ProjGen:
                 if u.mod == self.target and not same:
                     p = 0.45
                 if v.mod == self.target and not same:
-                    p = 0.02        # a followed module calling back into the target (needs a cycle)
+                    p = 0.07        # a followed module calling back into the target (an import cycle through it)
                 if r.random() < p:
                     u.edges.append(v.i)
 
@@ -494,6 +496,18 @@ class ProjGen:
                     and x.count(".") == m.count(".")]
             if sibs:
                 forms += ["reexport-chain", "reexport-chain", "reexport-star-chain", "reexport-star-chain"]
+        # star re-export chains that cross TWO package levels (m = P.S.leaf, both P and P.S packages): what the inner
+        # `from .leaf import *` means depends on the file that is current when P/S/__init__'s root context is compiled
+        grand = parent.rsplit(".", 1)[0] if parent is not None and "." in parent else None
+        if (grand is not None and grand in self.mods and self.mods[grand]["init"] and parent in self.mods
+                and self.mods[parent]["init"] and n not in (parent, grand) and not self.mods[m]["init"]):
+            forms += ["reexport-star-2level"] * 4 + ["reexport-star-2level-named"] * 2
+        # … and one that goes UP from the inner package: P/S/__init__: from ..leaf import *  (m = P.leaf)
+        subs = [x for x in self.mods if parent is not None and x.startswith(parent + ".") and self.mods[x]["init"]
+                and x.count(".") == parent.count(".") + 1]
+        if (parent is not None and parent in self.mods and self.mods[parent]["init"] and subs and n != parent
+                and n not in subs and not self.mods[m]["init"]):
+            forms += ["reexport-star-up"] * 3
         if self.mods[m]["init"]:
             forms = [f for f in forms if f not in ("rel-module",)]
         f = r.choice(forms)
@@ -547,6 +561,22 @@ class ProjGen:
             add(f"from .{leaf} import {nm}", parent)
             add(f"import {parent}")
             sp = f"{parent}.{nm}"
+        elif f == "reexport-star-2level":
+            add(f"from .{leaf} import *", parent)
+            add(f"from .{parent.rsplit('.', 1)[-1]} import *", grand)
+            add(f"from {grand} import {nm}")
+            sp = nm
+        elif f == "reexport-star-2level-named":
+            add(f"from .{leaf} import {nm}", parent)
+            add(f"from .{parent.rsplit('.', 1)[-1]} import *", grand)
+            add(f"from {grand} import {nm}")
+            sp = nm
+        elif f == "reexport-star-up":
+            sub = r.choice(subs)
+            add(f"from ..{leaf} import *", sub)
+            add(f"from .{sub.rsplit('.', 1)[-1]} import *", parent)
+            add(f"from {parent} import {nm}")
+            sp = nm
         elif f == "reexport-star-chain":   # parent/__init__: from .sib import * ; sib: from .leaf import nm
             sib = r.choice(sibs)
             sleaf = sib.rsplit(".", 1)[-1]
@@ -647,6 +677,20 @@ class ProjGen:
             self.mods[a]["imports"].append(f"import {b}")
             self.mods[b]["imports"].append(f"from {a} import *" if (self.mods[b]["init"] and r.random() < 0.5) else f"import {a}")
         files = {}
+        # two files competing for one module name (facts come from the REAL locator; the model follows what it says)
+        self.file_layout = None
+        plain = [m for m in others if not self.mods[m]["init"] and not any(l.startswith("from .") for l in self.mods[m]["imports"])]
+        if plain and r.random() < 0.2:
+            m = r.choice(plain)
+            if r.random() < 0.6:
+                # the module grew into a package: definitions in m/__init__.py, a stale m.py with the same names next to it
+                names = [u.name for u in self.units if u.mod == m]
+                self.mods[m]["init"] = True
+                files[m.replace(".", "/") + ".py"] = "".join(f"def {x}(*a, **k):\n    return a[0].stale_{x}\n" for x in names) or "STALE = 1\n"
+                self.file_layout = "package-next-to-stale-module"
+            else:
+                files[m.replace(".", "/") + "/notes.txt"] = "not python\n"
+                self.file_layout = "module-next-to-plain-directory"
         for m, d in self.mods.items():
             head = []
             if self.hostile:
@@ -670,7 +714,10 @@ class ProjGen:
 def gen_project(rng):
     g = ProjGen(rng)
     files, target = g.build()
-    return files, target, {"layout": g.layout, "forms": g.forms, "hostile": g.hostile}
+    # how the target is named on the command line (the working directory is the project)
+    spelling = rng.choice(["relative"] * 5 + ["absolute"] * 4 + ["dot-slash"])
+    return files, target, {"layout": g.layout, "forms": g.forms, "hostile": g.hostile, "file_layout": g.file_layout,
+                           "spelling": spelling}
 
 
 CURATED = [
@@ -713,11 +760,38 @@ CURATED = [
 ]
 
 
+# run with the target named by its ABSOLUTE path: an import cycle through the target meets the target file again under
+# the very path it was entered with (two FileIrs, one `location.defined_in`)
+CURATED_ABS = [
+    # the C06-m9 shape: the callee of the followed module calls back into a target function
+    ({"target.py": "from a import fa\ndef base(b):\n    return b.base_attr\ndef caller(o):\n    return fa(o)\n",
+      "a.py": "from target import base\ndef fa(x):\n    return base(x.left)\n"}, "target.py"),
+    # equal Call symbols `helper(b)` held by the target's `caller` and by the re-analysed copy of the target's `base`:
+    # ONE equality class (same path), so the second is not expanded again
+    ({"target.py": "from a import fa\ndef helper(b):\n    return b.h_attr\ndef base(b):\n    helper(b)\n    return b.base_attr\n"
+                   "def caller(b, c):\n    helper(b)\n    return fa(c)\n",
+      "a.py": "import target\ndef fa(b):\n    return target.base(b)\n"}, "target.py"),
+    # class initialiser and static method of the target reached back through the cycle
+    ({"tp/__init__.py": "", "tp/tmod.py": "from .sib import mk\nclass K:\n    def __init__(self, v):\n        self.w = v.in_init\n"
+                                          "    @staticmethod\n    def sm(z):\n        return z.in_sm\ndef caller(x):\n    return mk(x)\n",
+      "tp/sib.py": "from . import tmod\nfrom .tmod import K\ndef mk(q):\n    k = K(q)\n    tmod.K.sm(q.r)\n    return k\n"}, "tp/tmod.py"),
+]
+
+
 # ------------------------------------------------------------------ the stage
 
 
 class PCase:
-    __slots__ = ("files", "target", "project", "facts", "im", "mo", "mo_rev", "skipped", "diff", "meta", "rounds")
+    __slots__ = ("files", "target", "project", "facts", "im", "mo", "mo_rev", "skipped", "diff", "meta", "rounds", "target_arg")
+
+
+def spelled(project: Path, target_rel: str, spelling: str) -> str:
+    """The target argument; `str(Path(arg))` is what `config.arguments.target` / `enter_file` hold."""
+    if spelling == "absolute":
+        return str(project / target_rel)
+    if spelling == "dot-slash":
+        return "./" + target_rel
+    return target_rel
 
 
 def write_project(root: Path, files):
@@ -764,6 +838,8 @@ def run_model(cases, model, ties="insertion", attr="mo"):
 
 def run_pipeline2_stage(res, rng, n, model, cli_sample=5, keep=None, curated=True):
     work = [(dict(f), t, {"layout": "curated", "forms": [], "hostile": False}) for f, t in CURATED] if curated else []
+    if curated:
+        work += [(dict(f), t, {"layout": "curated", "forms": [], "hostile": False, "spelling": "absolute"}) for f, t in CURATED_ABS]
     for _ in range(n):
         work.append(gen_project(rng))
     cases = []
@@ -781,13 +857,14 @@ def run_pipeline2_stage(res, rng, n, model, cli_sample=5, keep=None, curated=Tru
                     ast.parse(text)
             except SyntaxError:
                 continue
-            c.facts = Facts(c.project, target)
+            c.target_arg = spelled(c.project, target, meta.get("spelling", "relative"))
+            c.facts = Facts(c.project, str(Path(c.target_arg)))
             c.facts.seed()
             if c.facts.skipped is not None:
                 c.skipped = c.facts.skipped
                 cases.append(c)
                 continue
-            c.im = real_pipeline2(c.project, target)
+            c.im = real_pipeline2(c.project, c.target_arg)
             cases.append(c)
         live = [c for c in cases if c.skipped is None]
         run_model(live, model)
@@ -825,6 +902,13 @@ def run_pipeline2_stage(res, rng, n, model, cli_sample=5, keep=None, curated=Tru
             im = c.im
             res.count("pipeline2:outcome:" + im["outcome"] + (":" + im["exc"] if im["outcome"] != "ok" else ""))
             res.count("pipeline2:layout:" + c.meta["layout"])
+            res.count("pipeline2:target-spelling:" + c.meta.get("spelling", "relative"))
+            tmod = c.target[:-3].replace("/", ".")
+            if tmod in (im.get("irs") or []) or tmod.rsplit(".", 1)[-1] in (im.get("irs") or []):
+                # an import cycle led back to the target: it is analysed a second time, as an import
+                res.count("pipeline2:target-met-again-by-the-import-walk:" + c.meta.get("spelling", "relative"))
+            if c.meta.get("file_layout"):
+                res.count("pipeline2:file-layout:" + c.meta["file_layout"])
             for f in c.meta["forms"]:
                 res.count("pipeline2:form:" + f)
             res.count("pipeline2:fact-rounds", c.rounds)
@@ -849,7 +933,7 @@ def run_pipeline2_stage(res, rng, n, model, cli_sample=5, keep=None, curated=Tru
         sample = [c for c in cases if c.skipped is None and c.mo is not None and "__error__" not in c.mo]
         rng.shuffle(sample)
         for c in sample[:cli_sample]:
-            cli = cli_run(c.project, c.target, hashseed=rng.randrange(1, 1000))
+            cli = cli_run(c.project, c.target_arg, hashseed=rng.randrange(1, 1000))
             res.count("pipeline2:cli:exit:" + str(cli["exit"]))
             d = pipeline.compare_cli(cli, c.mo)
             if d is not None:
